@@ -203,13 +203,17 @@ def _one_history(arg):
         clears_ev = []
         dicts = {}
         gdict = {}
+        # per-label thresholds (the second label's differs from the first's in two cases out of three)
+        f2 = rng.choice([1.0, 0.5, 2.0])
+        thr_by = {"car": prm["thr"], "pedestrian": min(prm["thr"] * f2, 0.95) if maximize else prm["thr"] * f2}
+        pending = []
         for label in targets:
             bl = [_bucket(fr, label, targets) for fr in real]
             G = sum(1 for fr in bl[1:] for r in fr if r.ground_truth_object is not None and r.ground_truth_object.semantic_label.label.value == label)
             G += rng.choice([0, 0, 1, 4])
             if rng.random() < 0.05:
                 G = 0
-            evs = [dict(tid=0, ev="Begin", label=label, policy=prm["policy"], thr4=int(round(prm["thr"] * 1e4)), maximize=1 if maximize else 0, g=G)]
+            evs = [dict(tid=0, ev="Begin", label=label, policy=prm["policy"], thr4=int(round(thr_by[label] * 1e4)), maximize=1 if maximize else 0, g=G)]
             for fr in bl:
                 res = []
                 for r in fr:
@@ -217,24 +221,31 @@ def _one_history(arg):
                         res.append(dict(e=r.estimated_object._verif_id, el=r.estimated_object.semantic_label.label.value, g=0, gl="none", s4=0))
                     else:
                         v = r.get_matching(mode).value
-                        if abs(v - prm["thr"]) < 1e-3:
+                        if any(abs(v - t_) < 1e-3 for t_ in thr_by.values()):
                             ok = False
                         res.append(dict(e=r.estimated_object._verif_id, el=r.estimated_object.semantic_label.label.value,
                                         g=r.ground_truth_object._verif_id, gl=r.ground_truth_object.semantic_label.label.value,
                                         s4=int(round(min(v, 1000.0) * 1e4))))
                 evs.append(dict(tid=0, ev="Frame", res=res))
-            cl = CLEAR(object_results=bl, num_ground_truth=G, target_labels=[AW[label]], matching_mode=mode, matching_threshold_list=[prm["thr"]])
-            r_ = cl.results
-            evs.append(dict(tid=0, ev="End", tp=int(r_["tp"]), fp=int(r_["fp"]), idsw=int(r_["id_switch"]), n=int(r_["predict_num"]),
-                            sum4=int(round(r_["tp_matching_score"] * 1e4)),
-                            mota6=-1 if r_["MOTA"] == float("inf") else int(round(r_["MOTA"] * 1e6)),
-                            motp4=-1 if r_["MOTP"] == float("inf") else int(round(r_["MOTP"] * 1e4))))
-            evs_all.append((evs, dict(label=label, frames=len(bl) - 1, g=G, **prm, results={a: (b if b != float("inf") else "inf") for a, b in r_.items()})))
+            pending.append((label, bl, G, evs))
             dicts[AW[label]] = bl
             gdict[AW[label]] = G
         if not ok:
             continue
-        ts = TrackingMetricsScore(dicts, gdict, [AW[t] for t in targets], mode, [prm["thr"]] * len(targets))
+        ts = TrackingMetricsScore(dicts, gdict, [AW[t] for t in targets], mode, [thr_by[t] for t in targets])
+
+        def end_event(r_):
+            return dict(tid=0, ev="End", tp=int(r_["tp"]), fp=int(r_["fp"]), idsw=int(r_["id_switch"]), n=int(r_["predict_num"]),
+                        sum4=int(round(r_["tp_matching_score"] * 1e4)),
+                        mota6=-1 if r_["MOTA"] == float("inf") else int(round(r_["MOTA"] * 1e6)),
+                        motp4=-1 if r_["MOTP"] == float("inf") else int(round(r_["MOTP"] * 1e4)))
+
+        for i, (label, bl, G, evs) in enumerate(pending):
+            # the bucket scored directly by CLEAR, and the same bucket as TrackingMetricsScore scored it (its own per-label CLEAR)
+            cl = CLEAR(object_results=bl, num_ground_truth=G, target_labels=[AW[label]], matching_mode=mode, matching_threshold_list=[thr_by[label]])
+            for via, r_ in (("CLEAR", cl.results), ("TrackingMetricsScore", ts.clears[i].results)):
+                info = dict(label=label, frames=len(bl) - 1, g=G, via=via, thresholds=thr_by, **prm, results={a: (b if b != float("inf") else "inf") for a, b in r_.items()})
+                evs_all.append(([dict(e_) for e_ in evs] + [end_event(r_)], info))
         mota, motp, idsw = ts._sum_clear()
         sum_ev = dict(tid=0, ev="Sum", clears=[dict(g=c.num_ground_truth, tp=int(c.tp), idsw=int(c.id_switch),
                                                     mota6=-1 if c.mota == float("inf") else int(round(c.mota * 1e6)),
